@@ -39,12 +39,12 @@ ASSUMPTIONS = [
     "serialise/parse round trip of the written texts is C01's subject: the theorem states which text is in which file",
 ]
 EXHAUSTIVE = {"quick": False, "thorough": False}
-FINDING_CLASSES = {
-    1: "single-file-truncate",
-    2: "multifile-partial-write",
-    3: "subfile-name-collision",
-    4: "path-content-self-truncate",
-}
+# The four defects of the pinned tree (single-file-truncate, multifile-partial-write, subfile-name-collision,
+# path-content-self-truncate) were repaired in /repo by "fix: save renders and validates every file before writing
+# any ..." (known_findings/C18.txt, fixed: lines). The judge therefore compares the implementation with the
+# render-then-write model (save_fixed) and no finding class is left: any recurrence is a VIOLATION.
+FINDING_CLASSES = {}
+JUDGE = "judge_fixed"
 
 JSONNET_TEXT = '{"c": 3, "d": 2+2}'
 
